@@ -277,3 +277,5 @@ impl<'tera> VirtualMachine<'tera> {
             old(output).bytes@.is_prefix_of(final(output).bytes@),
     { unimplemented!() }
 }
+#[verifier::external_body]
+pub fn vx_str_eq_str(a: &str, b: &str) -> (r: bool) ensures r == (a@ == b@) { unimplemented!() }
